@@ -119,23 +119,26 @@ structure Result where
   dst : Buf
   deriving Repr, Inhabited
 
-/-- One call of `vm?` whose prologue checks passed. -/
-def callVM (prog : List UInt8) (vm : VM) (srcB dstB : Buf) : Result :=
-  let r0 : Run := { src := load false srcB, dst := load true dstB, pc := vm.pc, scratch := vm.scratch }
-  -- the coroutine switch: continue at the suspension point the previous call stopped at
-  let (r1, e1) : Run × Option Exit :=
-    match vm.p with
-    | 2 => readU8 r0
-    | 3 => skipScratch r0
-    | 4 => writeScratch r0
-    | _ => (r0, none)
-  let (r2, e) : Run × Exit :=
-    match e1 with
-    | some e => (r1, e)
-    | none => loop prog (prog.length + 1) r1
+/-- The coroutine switch: continue at the suspension point the previous call stopped at. -/
+def resumeStage (p : Nat) (r0 : Run) : Run × Option Exit :=
+  match p with
+  | 2 => readU8 r0
+  | 3 => skipScratch r0
+  | 4 => writeScratch r0
+  | _ => (r0, none)
+
+/-- … then the interpreter loop, unless the resumed operation suspended again. -/
+def bodyStage (prog : List UInt8) (x : Run × Option Exit) : Run × Exit :=
+  match x.2 with
+  | some e => (x.1, e)
+  | none => loop prog (prog.length + 1) x.1
+
+/-- The exit labels: what is stored in `f_pc` / `p_vm`, and the status. -/
+def finishStage (vm : VM) (x : Run × Exit) : Result :=
+  let r2 := x.1
   let srcB' := finalSave r2.src
   let dstB' := finalSave r2.dst
-  match e with
+  match x.2 with
   | .fallOut =>
     { body := ⟨.ok, .ok, 0⟩, vm := { pc := 0, p := 0, scratch := r2.scratch }, src := srcB', dst := dstB' }
   | .note =>
@@ -147,5 +150,10 @@ def callVM (prog : List UInt8) (vm : VM) (srcB dstB : Buf) : Result :=
   | .error =>
     { body := ⟨.exit, .err (.user kProbeError), 0⟩,
       vm := { pc := r2.pc, p := vm.p, scratch := r2.scratch }, src := srcB', dst := dstB' }
+
+/-- One call of `vm?` whose prologue checks passed. -/
+def callVM (prog : List UInt8) (vm : VM) (srcB dstB : Buf) : Result :=
+  let r0 : Run := { src := load false srcB, dst := load true dstB, pc := vm.pc, scratch := vm.scratch }
+  finishStage vm (bodyStage prog (resumeStage vm.p r0))
 
 end WuffsVerif.ProbeVM
